@@ -21,6 +21,10 @@ def _own(i, p):
     return lambda ts: 10000.0 * (i + 1) + 100000.0 * p + 0.5 * np.asarray(ts)
 
 
+def _cplx(ts):
+    return 1j * (3.0 + 0.125 * np.asarray(ts))
+
+
 def _bgf(p):
     return lambda ts: 1000.0 * p + np.asarray(ts) * 1.0 + 0.25 * np.asarray(ts) ** 2
 
@@ -35,6 +39,9 @@ def build(c, noise_bg):
     for i, a in enumerate(arr.antennas):
         for p, s in enumerate(a.streams):
             s.add_signal(_own(i, p))
+            if c.get('cplx') and i == len(arr.antennas) - 1 and p == len(a.streams) - 1:
+                # (sub-box) the LAST stream also carries a complex custom source; every other stream is real
+                s.add_signal(_cplx)
     for p, s in enumerate(arr.bg_streams):
         if noise_bg:
             s.add_noise(0.5, 2.0)
@@ -166,6 +173,8 @@ def case_array(c):
                             kk = k_local + np.arange(req)
                             times = t_restart + kk
                             own = _own(i, p)(times)
+                            if c.get('cplx') and i == n - 1 and p == npol - 1:
+                                own = own + _cplx(times)
                             if noise_bg:
                                 idx = pos0 + kk + mx - delays[i]
                                 want = own + twin[p][idx]
@@ -217,6 +226,11 @@ def run(ctx):
             for npol in (1, 2):
                 for t0 in ((0.0, 20.0) if T else (0.0,)):
                     cases.append(dict(n=n, delays=dl, npol=npol, N=N, t_start=t0, seed=21 + ctx.seed, all_cuts=T))
+    # (sub-box) a complex custom source on the last stream only; a non-zero construction time in the quick tier too
+    for dl in ([0, 2], [1, 0, 3]):
+        for npol in (1, 2):
+            cases.append(dict(n=len(dl), delays=dl, npol=npol, N=N, t_start=0.0, seed=21 + ctx.seed, all_cuts=False, cplx=True))
+            cases.append(dict(n=len(dl), delays=dl, npol=npol, N=N, t_start=20.0, seed=21 + ctx.seed, all_cuts=False))
     # request sizes as numpy fixed-width integers near the top of their range (size + largest delay does not fit the type)
     for nt, comps, dl in (('uint8', [[200, 150, 130], [255, 101, 254]], [0, 100]), ('int8', [[100, 120, 127], [127, 31]], [30, 0]),
                           ('int16', [[200, 150, 130]], [0, 100]), ('uint8', [[200, 150]], [100, 0, 57])):
